@@ -141,6 +141,95 @@ func c05Program(r *gen.R, tiny bool, variant int) *conc.Program {
 	return p
 }
 
+// c05HotKeyProgram: one collection on a cold file; the mutator overwrites the same few keys again
+// and again with values of equal length (unflushed items overwritten before they were ever
+// written), with evictions in between so that its descents block in file reads; the readers take
+// snapshots and run key-only visits (which evict the path), the flusher flushes repeatedly.
+func c05HotKeyProgram(r *gen.R) *conc.Program {
+	p := &conc.Program{Initial: map[string][]model.KV{}, Names: []string{"a"}, Cold: 1, YieldingCmp: r.P(60)}
+	keys := [][]byte{[]byte("k1"), []byte("k2"), []byte("k3"), []byte("k4"), []byte("k5"), []byte("k6"), []byte("k7")}
+	prios := map[string]int32{}
+	for _, k := range keys {
+		prios[string(k)] = int32(r.Range(1, 100000))
+		p.Initial["a"] = append(p.Initial["a"], model.KV{Key: k, Val: []byte("init-a-" + string(k)), Prio: prios[string(k)]})
+	}
+	// the hot keys are the two with the lowest priorities: they sit below other nodes
+	hot := [][]byte{keys[0], keys[1]}
+	for _, k := range keys {
+		if prios[string(k)] < prios[string(hot[0])] {
+			hot[1], hot[0] = hot[0], k
+		} else if string(k) != string(hot[0]) && prios[string(k)] < prios[string(hot[1])] {
+			hot[1] = k
+		}
+	}
+	for i, n := 0, r.Range(12, 36); i < n; i++ {
+		k := hot[0]
+		if r.P(25) {
+			k = hot[1]
+		}
+		st := conc.Step{Coll: "a", Key: k, Prio: prios[string(k)], K: conc.MSet, Fixed: true}
+		if r.P(20) {
+			st.K = conc.MEvict
+		}
+		p.Mutator = append(p.Mutator, st)
+	}
+	for i, n := 0, r.Range(1, 3); i < n; i++ {
+		p.Flusher = append(p.Flusher, conc.Step{K: conc.FFlush})
+	}
+	for j, nr := 0, r.Range(2, 4); j < nr; j++ {
+		var rs []conc.Step
+		for i, n := 0, r.Range(4, 10); i < n; i++ {
+			st := conc.Step{Coll: "a", Key: hot[0], Stop: -1}
+			switch (i + j) % 3 {
+			case 0:
+				st.K = conc.RVisit // key-only, complete: evicts the written items it passes
+				st.Key = nil
+			default:
+				st.K = conc.RSnapshot
+			}
+			rs = append(rs, st)
+		}
+		p.Readers = append(p.Readers, rs)
+	}
+	return p
+}
+
+// windowHunter is a scheduling strategy for the hot-key programs: while the mutator is in the
+// middle of an operation (it yielded at a file call) it prefers to let a reader or the flusher
+// start something, and once a reader has just taken a snapshot (its next yield is "snapread") it
+// prefers to let the mutator finish - the interleavings in which another party pins a version
+// between two steps of one mutation.  Everything else is a random walk that tends to stay.
+type windowHunter struct{ next func(int) int }
+
+func (w *windowHunter) Pick(step int, cur int, runnable []int, point string) int {
+	has := func(id int) bool {
+		for _, x := range runnable {
+			if x == id {
+				return true
+			}
+		}
+		return false
+	}
+	if cur == 0 && strings.HasPrefix(point, "io") && w.next(100) < 75 {
+		var others []int
+		for _, x := range runnable {
+			if x != 0 {
+				others = append(others, x)
+			}
+		}
+		if len(others) > 0 {
+			return others[w.next(len(others))]
+		}
+	}
+	if cur >= 1 && (point == "snapread" || point == "flush.pin" || point == "flush.coll") && has(0) && w.next(100) < 75 {
+		return 0
+	}
+	if has(cur) && w.next(100) < 70 {
+		return cur
+	}
+	return runnable[w.next(len(runnable))]
+}
+
 type c05Outcome struct {
 	viol   *Viol
 	hash   uint64
@@ -229,6 +318,10 @@ func runC05(ctx *Ctx, idx int) Result {
 	switch {
 	case idx < nr: // deterministic: random / PCT
 		p := c05Program(r, false, 0)
+		if idx%4 == 3 {
+			p = c05HotKeyProgram(r)
+			ctx.Stats["c05.hot-key-programs"]++
+		}
 		var strat sched.Strategy
 		label := "random-walk"
 		if idx%2 == 0 {
@@ -248,6 +341,21 @@ func runC05(ctx *Ctx, idx int) Result {
 		s := sched.New(strat)
 		o := c05Execute(ctx, p, conc.Mode{Sched: s}, label)
 		ctx.Stats["evaluations.extra"]++
+		if idx%4 == 3 {
+			// hot-key programs: three more schedules of the same program
+			for k := 0; k < 3 && o.viol == nil; k++ {
+				var st2 sched.Strategy = &sched.Random{Next: r.Intn, Stick: 30}
+				if k > 0 {
+					st2 = &windowHunter{next: r.Intn}
+				}
+				s2 := sched.New(st2)
+				o2 := c05Execute(ctx, p, conc.Mode{Sched: s2}, "random-walk")
+				ctx.Stats["evaluations.extra"]++
+				if o2.viol != nil {
+					o, s = o2, s2
+				}
+			}
+		}
 		if !c05Seen[o.hash] {
 			c05Seen[o.hash] = true
 			ctx.Stats["c05.distinct-schedules"]++
